@@ -458,8 +458,9 @@ def _volumes(run):
     if run.quick:
         #        games/size, positions/game, constructed/size, legal-set positions per size (3..8), ill-formed k
         return dict(games=6, per_game=6, constructed=14, legal_per_size={3: 60, 4: 40, 5: 24, 6: 12, 7: 4, 8: 3}, ill=60, ill_coq=100)
-    return dict(games=40, per_game=10, constructed=160,
-                legal_per_size={3: 600, 4: 400, 5: 240, 6: 120, 7: 40, 8: 24}, ill=150, ill_coq=250)
+    # measured (seed 20260930, machine shared with other builds): ~1 900 positions, ~11 CPU-minutes in all
+    return dict(games=30, per_game=8, constructed=100,
+                legal_per_size={3: 300, 4: 200, 5: 120, 6: 60, 7: 20, 8: 12}, ill=120, ill_coq=150)
 
 
 def correspondence(run):
